@@ -597,3 +597,9 @@ Definition strip_obs (ob : obs) : obs :=
   match ob with OCall ems toks out => OCall (map strip_em ems) toks out | _ => ob end.
 Definition no_strict (h : list op) : bool :=
   forallb (fun o => match o with SetIgnore false => false | _ => true end) h.
+
+(* internal sizes after a history (what test_dispatcher_unsubscribe_all looks at): registered callbacks over all
+   signals, and public tokens; compared with the implementation in the correspondence *)
+Definition final_counts (h : list op) : nat * nat :=
+  let s := fst (run_from re0 h) in (length (cbs (reg (dsp s))), length (tokmap (dsp s))).
+Definition counts_eqb (a b : nat * nat) : bool := prod_beq Nat.eqb Nat.eqb a b.
